@@ -1,5 +1,6 @@
 """C06 -- returned coordinates reproduce the file's tie points over the whole globe."""
 import datetime
+import os
 import random
 import warnings
 from fractions import Fraction
@@ -251,7 +252,8 @@ def part_c(res, rng, tier, seed, d):
                     plon, plat = truth_positions(probe, times_us, pix_pos)
                     lines = l1b.default_lines(fmt, n, start, latlon=lambda i: (list(tlat[i]), list(tlon[i])),
                                               noise=(random.Random(rng.getrandbits(32)) if n < 1000 else None))
-                    r = impl.open_reader(fmt, l1b.build_file(fmt, sc, start, lines), adjust_clock_drift=False)
+                    r = impl.open_reader(fmt, l1b.build_file(fmt, sc, start, lines), adjust_clock_drift=False,
+                                         tle_dir=tle_dir, tle_name=tle_name, tle_thresh=40000)
                     lons, lats = r.get_lonlat()
             except Exception as e:  # noqa
                 import traceback
@@ -261,6 +263,21 @@ def part_c(res, rng, tier, seed, d):
             if lons.shape != (n, width):
                 res.violations.append(("full-width result has the wrong shape", dict(ctx, shape=list(lons.shape))))
                 continue
+            if 40 <= n <= 200 and rep in (0, 1):
+                # writing the legacy files of the whole pass in between does not change what get_lonlat returns
+                try:
+                    out_ = os.path.join(d, "save_%s_%d" % (fmt, rep))
+                    os.makedirs(out_, exist_ok=True)
+                    before_ = (np.array(lons, copy=True), np.array(lats, copy=True))
+                    with warnings.catch_warnings():
+                        warnings.simplefilter("ignore")
+                        r.save(0, 0, output_dir=out_ + "/")
+                        lons_b, lats_b = r.get_lonlat()
+                    if not (impl.nan_eq(lons_b, before_[0]) and impl.nan_eq(lats_b, before_[1])):
+                        res.violations.append(("get_lonlat() after a save() of the whole pass no longer returns the coordinates it returned before",
+                                               dict(ctx, max_longitude=float(np.nanmax(np.abs(lons_b))))))
+                except Exception as e:  # noqa
+                    res.violations.append(("save() of the whole pass raised %r" % (e,), ctx))
             cols = TIE_COLS[res_]
             scale = 128.0 if fam == "pod" else 1e4
             wlon = np.array([ln["lons"] for ln in lines]) / scale
